@@ -68,8 +68,8 @@ theorem c39_greedy_total {α} (ops : Ops α) (L : Nat) (rows : List (List α)) (
   rw [hp]
   rfl
 
-example : (decodeGreedy natOps 3 [[1, 2, 2], [0, 0, 0], [3, 1, 1], [1, 5, 1], [1, 5, 1], [1, 1, 1]]).map
-    (fun h => (h.steps, h.score)) = some ([⟨2, 0⟩, ⟨1, 3⟩, ⟨2, 5⟩], 0) := by decide
+example : (decodeGreedy natOps 3 [[1, 2, 2], [1, 1, 1], [3, 1, 1], [1, 5, 1], [1, 5, 1], [1, 1, 1]]).map
+    (fun h => (h.steps, h.score)) = some ([⟨1, 0⟩, ⟨1, 3⟩], 150) := by decide
 
 /-- What a collapsed position means: `⟨l, p⟩` is reported iff `l` is a non-blank label
 that occurs at `p` and `p` is the *first* position of its run. -/
@@ -146,14 +146,14 @@ theorem c39_collapsePos_mem (path : List Nat) (l p : Nat) :
   | succ k => simp; constructor <;> (intro h; simp [h])
 
 /-- Exact instance: the arg-max of a row is an index of a maximal entry, and among equal
-maxima the **last** one (`Iterator::max_by`). -/
+maxima the **first** one (`max_position_by` replaces the best only on `Greater`). -/
 theorem c39_argmax_nat (row : List Nat) (i : Nat) (h : argmaxRow natOps row = some i) :
-    ∃ v, row[i]? = some v ∧ ∀ j w, row[j]? = some w → w ≤ v ∧ (w = v → j ≤ i) := by
+    ∃ v, row[i]? = some v ∧ ∀ j w, row[j]? = some w → w ≤ v ∧ (w = v → i ≤ j) := by
   have gen : ∀ (ys pre : List Nat) (bi bv : Nat), pre[bi]? = some bv →
-      (∀ j w, pre[j]? = some w → w ≤ bv ∧ (w = bv → j ≤ bi)) →
+      (∀ j w, pre[j]? = some w → w ≤ bv ∧ (w = bv → bi ≤ j)) →
       ∃ v, (pre ++ ys)[argmaxGo natOps bi bv pre.length ys]? = some v ∧
         ∀ j w, (pre ++ ys)[j]? = some w →
-          w ≤ v ∧ (w = v → j ≤ argmaxGo natOps bi bv pre.length ys) := by
+          w ≤ v ∧ (w = v → argmaxGo natOps bi bv pre.length ys ≤ j) := by
     intro ys
     induction ys with
     | nil => intro pre bi bv h1 h2; exact ⟨bv, by simpa [argmaxGo] using h1, by simpa [argmaxGo] using h2⟩
@@ -164,28 +164,13 @@ theorem c39_argmax_nat (row : List Nat) (i : Nat) (h : argmaxRow natOps row = so
       have hlen : (pre ++ [y]).length = pre.length + 1 := by simp
       have happ : pre ++ y :: ys = (pre ++ [y]) ++ ys := by simp
       simp only [argmaxGo]
-      by_cases hgt : y < bv
-      · have : natOps.argGt bv y = true := by simp [natOps, hgt]
+      by_cases hgt : bv < y
+      · have : natOps.argGt y bv = true := by simp [natOps, hgt]
         rw [if_pos this, happ, ← hlen]
-        apply ih (pre ++ [y]) bi bv
-        · rw [List.getElem?_append_left hbi]; exact h1
-        · intro j w hj
-          by_cases hjl : j < pre.length
-          · rw [List.getElem?_append_left hjl] at hj; exact h2 j w hj
-          · rw [List.getElem?_append_right (by omega)] at hj
-            have : j - pre.length = 0 := by
-              cases hk : j - pre.length with
-              | zero => rfl
-              | succ k => rw [hk] at hj; simp at hj
-            rw [this] at hj
-            simp at hj
-            omega
-      · have : natOps.argGt bv y = false := by simp [natOps]; omega
-        rw [if_neg (by simp [this]), happ, ← hlen]
         have hlen' : (pre ++ [y]).length - 1 = pre.length := by simp
-        have : argmaxGo natOps pre.length y (pre ++ [y]).length ys =
+        have e : argmaxGo natOps pre.length y (pre ++ [y]).length ys =
             argmaxGo natOps ((pre ++ [y]).length - 1) y (pre ++ [y]).length ys := by rw [hlen']
-        rw [this]
+        rw [e]
         apply ih (pre ++ [y]) ((pre ++ [y]).length - 1) y
         · rw [hlen', List.getElem?_append_right (Nat.le_refl _)]; simp
         · intro j w hj
@@ -201,6 +186,21 @@ theorem c39_argmax_nat (row : List Nat) (i : Nat) (h : argmaxRow natOps row = so
             rw [this] at hj
             simp at hj
             rw [hlen']; omega
+      · have : natOps.argGt y bv = false := by simp [natOps]; omega
+        rw [if_neg (by simp [this]), happ, ← hlen]
+        apply ih (pre ++ [y]) bi bv
+        · rw [List.getElem?_append_left hbi]; exact h1
+        · intro j w hj
+          by_cases hjl : j < pre.length
+          · rw [List.getElem?_append_left hjl] at hj; exact h2 j w hj
+          · rw [List.getElem?_append_right (by omega)] at hj
+            have : j - pre.length = 0 := by
+              cases hk : j - pre.length with
+              | zero => rfl
+              | succ k => rw [hk] at hj; simp at hj
+            rw [this] at hj
+            simp at hj
+            omega
   cases row with
   | nil => cases h
   | cons x xs =>
